@@ -192,7 +192,7 @@ Fixpoint split_ops (fuel : nat) (l : list Z) (cur : list Z) : list (list Z) :=
 
 Definition crop_of (rx : list (list Z)) (l : list Z) : option rop :=
   match l with
-  | 0 :: key => if forallb (fun k => (1 <=? k) && (k <=? 13)) key then Some (RSubscribe key) else None
+  | 0 :: key => if forallb (fun k => (0 <=? k) && (k <=? 13)) key then Some (RSubscribe key) else None
   | [1; h] => if 0 <=? h then Some (RUnsub (Z.to_nat h)) else None
   | 6 :: arg :: pat => option_map (fun p => RNotify p arg) (levels_of (S (length pat)) rx pat)
   | 11 :: pat => option_map RShrink (levels_of (S (length pat)) rx pat)
